@@ -3,7 +3,7 @@
    mandatory parameters were retyped (known finding, witness below); what is proved: every
    refusal by a documented guard returns the state as it was, and the only remaining way for
    frame() to throw is from the updaters after the store (C10_frame_throw_cases). *)
-From EZ Require Import Base Types Api Proofs_Param Proofs_Store Proofs_Guards Proofs_Refuse Float32 Run.
+From EZ Require Import Base Types Api Proofs_Param Proofs_Store Proofs_Guards Proofs_Refuse Spec_Typed Proofs_Updaters Float32 Run.
 Local Open Scope N_scope.
 
 Definition C10_full_statement : Prop := forall f_key f_tosize f_div f_is_zero s o e s',
@@ -53,6 +53,45 @@ Theorem C10_refused_point_column : forall f_key f_tosize f_div news s labels x,
   api_point_col f_key f_tosize f_div news s = RThrow x s.
 Proof. exact api_point_col_refusal. Qed.
 Print Assumptions C10_refused_point_column.
+
+(* frame(): COMPLETE.  On an object whose mandatory POINT/ANALOG parameters are well typed (mt_b, a computable
+   predicate: the getters the updaters use would succeed) and whose stored sizes fit the 32-bit int of the setters,
+   ANY throw of frame() leaves the object as it was: the guards refuse before the store, and the updaters that run
+   after the store do not throw.  The conversions f_key/f_tosize are undefined outside their range (C19), never a throw. *)
+Theorem C10_frame_any_throw_unchanged : forall f_key f_tosize f_div f_is_zero,
+  (forall x e, f_key x <> Throw e) -> (forall x e, f_tosize x <> Throw e) ->
+  forall f idx s e s',
+  MT (groups s) -> (forall fs', put empty_frame (frames s) f idx = Ok fs' -> small_frames fs') ->
+  api_frame f_key f_tosize f_div f_is_zero f idx s = RThrow e s' -> s' = s.
+Proof. exact api_frame_throw_unchanged. Qed.
+Print Assumptions C10_frame_any_throw_unchanged.
+
+(* the updater itself: no throw, parameters stay well typed, frames and prologue untouched *)
+Theorem C10_update_parameters_never_throws : forall f_key f_tosize f_div,
+  (forall x e, f_key x <> Throw e) -> (forall x e, f_tosize x <> Throw e) ->
+  forall nP nA s0,
+  MT (groups s0) -> (frames s0 = [] \/ (nP = [] /\ nA = [])) ->
+  nlen (frames s0) < 2147483648 -> npts0 s0 nP < 2147483648 -> nan0 s0 nA < 2147483648 ->
+  forall e s', update_parameters f_key f_tosize f_div nP nA s0 <> RThrow e s'.
+Proof.
+  intros f_key f_tosize f_div K1 K2 nP nA s0 M G S1 S2 S3 e s' E.
+  pose proof (update_parameters_total f_key f_tosize f_div K1 K2 nP nA s0 M G S1 S2 S3 s0 eq_refl) as T. rewrite E in T. exact T.
+Qed.
+Print Assumptions C10_update_parameters_never_throws.
+
+(* non-vacuity: the hypotheses hold of the new object and of an object with data, on the executable instance *)
+Example C10_frame_hypotheses_hold :
+  MT (groups init) /\
+  (forall x e, f_key_impl x <> Throw e) /\ (forall x e, f_tosize_impl x <> Throw e) /\
+  (let rate := mkParam nm_RATE [] false TFloat [1] [] [1120403456] [] in
+   exists s1 s2 s3, step_x init (OPoint [97]) = ROk tt s1 /\ step_x s1 (OParam nm_POINT rate) = ROk tt s2 /\
+    step_x s2 (OFrame (mkFrame [mkPoint [97] 1 2 3 4] []) None) = ROk tt s3 /\ mt_b (groups s3) = true /\ small_frames (frames s3)).
+Proof.
+  split; [vm_compute; reflexivity|]. split; [exact f_key_impl_nothrow|]. split; [exact f_tosize_impl_nothrow|].
+  do 3 eexists. split; [vm_compute; reflexivity|]. split; [vm_compute; reflexivity|]. split; [vm_compute; reflexivity|]. split; [vm_compute; reflexivity|].
+  unfold small_frames. vm_compute. repeat split; reflexivity.
+Qed.
+Print Assumptions C10_frame_hypotheses_hold.
 
 (* the full statement is false of the faithful model: replacing POINT:USED by a FLOAT parameter throws
    from the updater after the replacement *)
